@@ -76,7 +76,7 @@ def line_no(rng):
 
 
 def gen_registry(rng, ntests, *, empty_groups=False, repeat_groups=False, with_package=False, with_prints=True,
-                 with_filter=True, specials=SPECIAL_TC + SPECIAL_XML, print_avoid=""):
+                 with_filter=True, specials=SPECIAL_TC + SPECIAL_XML, print_avoid="", verbose=True):
     """operation lines describing a registry (without the final `run`)"""
     ops = []
     if with_package and rng.random() < 0.6:
@@ -138,6 +138,8 @@ def gen_registry(rng, ntests, *, empty_groups=False, repeat_groups=False, with_p
                     ops.append("checks %d" % rng.choice([0, 1, 2, 7]))
                 else:
                     ops.append("tick %d" % rng.choice([0, 1, 5, 999, 1000, 1001, 61234]))
+    if verbose and rng.random() < 0.3:
+        ops.insert(0, "verbose %d" % rng.choice([1, 2, 2]))
     if with_filter and rng.random() < 0.18 and names:
         n = rng.choice(names)
         pat = n if rng.random() < 0.5 else (n[:rng.randint(0, len(n))] if n else "")
